@@ -90,7 +90,7 @@ def _only_emissions(R, blocks, allowed, allow_calls=()):
         if t["k"] != "call":
             continue
         for a in t["args"]:
-            if arg_ty(b, a).get("s", "").startswith("&mut ") and cname(t) != "std::string::String::push_str" and \
+            if arg_ty(b, a).get("s", "").startswith("&mut ") and cname(t) not in ("std::string::String::push_str", "std::fmt::Write::write_fmt") and \
                     not cname(t).startswith(tuple(allow_calls) or ("\0",)):
                 problems.append("call `%s` with a unique reference at %s" % (cname(t), mir.Site(b, bb, None).loc()))
         if t["callee"].get("path") == b.name:
